@@ -175,6 +175,8 @@ pub fn run(tier: Tier, seed: u64) -> i32 {
         if w[0] == w[1] || w[1] == w[2] {
             ev.bucket("shared_wires");
         }
+        // every third case runs inside a context of earlier calls on its operands
+        let case = if ci % 3 == 1 { super::gadget::in_context(case, &mut rng, false, &ev) } else { case };
         let Some(h) = lab.honest(&case) else { return };
         for (name, forge) in substitutions(&h, &mut rng, 3, 8) {
             lab.adversary(&case, &h, &name, &forge);
@@ -201,6 +203,7 @@ pub fn run(tier: Tier, seed: u64) -> i32 {
     ev.floor("shared wires", ev.bucket_get("shared_wires"), 10);
     ev.floor("near-miss assignments (one sub-identity on one row) refused by the real prover", ev.bucket_get("near_miss.end_to_end"), 20);
     ev.floor("sub-identities covered by near misses", ev.set_len("near_miss_identities") as u64, 1);
+    ev.floor("cases run in a context of earlier calls on the operands", ev.bucket_get("context.cases"), 1000);
     ev.finish()
 }
 
